@@ -19,7 +19,9 @@
      retry_refinalizes : whether doRetry runs the route's FinalizeRequestHeaders again
      timers_reset_stream : whether the per-try / global timer callbacks reset the upstream stream themselves
      hijack_clears_body : whether sendHijackReply (no body) drops a response body stored earlier
-     retry_clears_reuse / setupretry_clears_reuse : whether doRetry / the !endStream branch of setupRetry clear reuseBuffer *)
+     retry_clears_reuse / setupretry_clears_reuse : whether doRetry / the !endStream branch of setupRetry clear reuseBuffer
+     global_lost_cas_stops : whether the global timer callback returns whenever it loses the CAS on upstreamResponseReceived
+                             (otherwise only when the response has already started downstream) *)
 From Coq Require Import List ZArith Bool Arith Lia.
 From RecordUpdate Require Import RecordSet.
 Import ListNotations RecordSetNotations.
@@ -43,7 +45,8 @@ Inductive route := RouteNone | RouteDirect (code : Z) (body : bool) | RouteNoClu
 
 Record srcp := { loop_bound : nat; min_budget : nat; reset_guarded : bool; direct_clears_again : bool; direct_cancels_retry : bool; direct_resets_upstream : bool;
   put_resets_cursor : bool; retry_checks_direct : bool; retry_refinalizes : bool; timers_reset_stream : bool; hijack_clears_body : bool;
-  retry_clears_reuse : bool; setupretry_clears_reuse : bool; reason_code : reason -> Z }.
+  retry_clears_reuse : bool; setupretry_clears_reuse : bool; global_lost_cas_stops : bool;
+  reason_code : reason -> Z }.
 
 Record cfg := {
   c_oneway : bool; c_data : bool; c_trailers : bool;
@@ -62,7 +65,7 @@ Record cfg := {
 #[export] Instance eta_srcp : Settable _ := settable! Build_srcp
   <loop_bound; min_budget; reset_guarded; direct_clears_again; direct_cancels_retry; direct_resets_upstream; put_resets_cursor; retry_checks_direct; retry_refinalizes;
    timers_reset_stream; hijack_clears_body; retry_clears_reuse;
-   setupretry_clears_reuse; reason_code>.
+   setupretry_clears_reuse; global_lost_cas_stops; reason_code>.
 
 Inductive rkind := KUp | KHijack | KDirect.
 Record resp := { r_kind : rkind; r_code : Z; r_data : bool; r_trailers : bool;
@@ -584,12 +587,14 @@ Definition env_step (e : ev) (s : st) : st * list out :=
   | EvGlobal =>
     if global_armed s then
       let s1 := s <| global_armed := false |> <| reuse := false |> in
-      if cleaned s1 then (s1, [])
-      else if received s1 then (s1, [])
-      else
-        let s2 := s1 <| received := true |> in
+      let timeout (s2 : st) : st * list out :=
         if has_upreq s2 then ((if timers_reset_stream src then upreq_reset_stream else ret) ;; on_up_reset RsGlobalTimeout) s2
-        else (s2, [])
+        else (s2, []) in
+      if cleaned s1 then (s1, [])
+      else if received s1 then
+        (* the CAS is lost *)
+        if global_lost_cas_stops src || resp_started s1 then (s1, []) else timeout s1
+      else timeout (s1 <| received := true |>)
     else (s, [])
   | EvDownReset why => on_down_reset why s
   | EvTerminate code =>
